@@ -1,6 +1,7 @@
-// C11 residue measurement (DESIGN.md §2.4): what the Lean theorems do not cover — rounding, the
-// inverse direction `toMatrix (extract M) = M` for all 24 orders including gimbal neighbourhoods,
-// the "within π of the target" and single-precision claims — measured on the REAL float/double code
+// C11 residue measurement (DESIGN.md §2.4): what the Lean theorems do not cover — ROUNDING: of the builders,
+// of `toMatrix (extract M) = M` (exact arithmetic: proved for every rotation matrix, Props/C11Round.lean) at and
+// within 1e-k of gimbal lock and on matrices not built by toMatrix33 (section H), of the "within π of the
+// target" and single-precision claims — measured on the REAL float/double code
 // against a long-double oracle built from an INDEPENDENT table of the decoded axes (the table proved
 // in lean/ImathVerif/Lemmas/C11Lemmas.lean: Ord.i_table, j_table, h_table, static_table).
 //
